@@ -243,7 +243,12 @@ class Session:
     # ---- optimize ----
     def optimize(self, max_iter, fix_first, verbose, tol, split=None, twin=True):
         try:
-            return self._optimize(max_iter, fix_first, verbose, tol, split, twin)
+            # (the interpreter's DEFAULT warning filters are in force during the calls -- not the harness's blanket "ignore" --: what the library
+            #  does must not depend on whether a warning was already shown once; the text goes to a buffer)
+            with warnings.catch_warnings():
+                warnings.resetwarnings()
+                with contextlib.redirect_stderr(io.StringIO()):
+                    return self._optimize(max_iter, fix_first, verbose, tol, split, twin)
         except Exception as ex:  # noqa  -- an exception escaping the library is an observation, not a failure of the harness
             g = self.g
             rep = {'numIter': -1, 'converged': False, 'lenResults': -1, 'lastComplete': False, 'rows': -1, 'initialOk': False, 'finalOk': False,
